@@ -23,6 +23,10 @@ from typing import Any
 ROOT = os.path.dirname(os.path.dirname(os.path.abspath(__file__)))
 PY = '/venv/bin/python'
 REPO = os.environ.get('FVM_REPO', '/repo')
+# evidence is only ever written under /verif/evidence for runs against /repo itself; runs against a
+# scratch copy (FVM_REPO, used to try the checks on deliberately broken trees) write elsewhere
+EVIDENCE_DIR = os.path.join(ROOT, 'evidence') if REPO == '/repo' else os.path.join(
+    ROOT, '.scratch', 'evidence-' + os.path.basename(REPO.rstrip('/')))
 
 
 def load_props() -> dict[str, Any]:
@@ -169,7 +173,7 @@ def check(prop: str, tier: str, seed: int, replay: str | None = None) -> int:
     t0 = time.time()
     os.makedirs(os.path.join(ROOT, '.scratch'), exist_ok=True)
     scratch = tempfile.mkdtemp(prefix=f'run-{prop}-', dir=os.path.join(ROOT, '.scratch'))
-    replay_dir = os.path.join(ROOT, 'evidence', 'replays')
+    replay_dir = os.path.join(EVIDENCE_DIR, 'replays')
     os.makedirs(replay_dir, exist_ok=True)
     only = None
     try:
@@ -248,8 +252,8 @@ def check(prop: str, tier: str, seed: int, replay: str | None = None) -> int:
         'violations': len(violations) - sum(len(v) for v in known.values()),
     }
     if not replay:
-        os.makedirs(os.path.join(ROOT, 'evidence'), exist_ok=True)
-        with open(os.path.join(ROOT, 'evidence', f'{prop}.json'), 'w') as f:
+        os.makedirs(EVIDENCE_DIR, exist_ok=True)
+        with open(os.path.join(EVIDENCE_DIR, f'{prop}.json'), 'w') as f:
             json.dump(ev, f, indent=1, default=str)
 
     for key, vs in sorted(known.items()):
